@@ -24,6 +24,9 @@ const (
 	// progressAt holds the 1-based index of the last call the guest started (a trap or proc_exit
 	// ends the run there).
 	progressAt = 4092
+	// longSleepNs: the long poll_oneoff timeout (in a few programs only, so that an implementation
+	// that really sleeps is detected in bounded time)
+	longSleepNs = 400_000_000
 )
 
 type fnDef struct {
@@ -95,6 +98,7 @@ type genCtx struct {
 	r         *rand.Rand
 	s         uint32 // slot base
 	allowTrap bool   // may generate the call that is known to end the run with a host panic
+	bigSleep  int    // how many long (0.4 s) poll_oneoff timeouts may still be generated
 }
 
 func (g *genCtx) fd() uint32 { return fdChoices[g.r.Intn(len(fdChoices))] }
@@ -189,7 +193,11 @@ func (g *genCtx) gen(fi int) callSpec {
 			case 0, 1: // clock
 				one[8] = 0
 				cid := uint32(g.r.Intn(2))
-				to := []uint64{0, 1, 1000, 5_000_000_000}[g.r.Intn(4)] // 5 s: must not really sleep
+				to := []uint64{0, 1, 1000, 250_000}[g.r.Intn(4)]
+				if g.bigSleep > 0 && g.r.Intn(3) == 0 {
+					g.bigSleep--
+					to = longSleepNs // must not really sleep
+				}
 				fl := []uint16{0, 0, 0, 1, 2}[g.r.Intn(5)]
 				copy(one[16:], le32(cid))
 				copy(one[24:], le64(to))
@@ -359,6 +367,9 @@ func (g *genCtx) gen(fi int) callSpec {
 // (with closes); 3 = every import exactly once (coverage), shuffled.
 func genProgram(r *rand.Rand, idx, kind int) program {
 	g := &genCtx{r: r}
+	if idx%8 == 1 || idx%8 == 2 {
+		g.bigSleep = 1
+	}
 	p := program{Idx: idx}
 	var seq []int
 	exit := fnIndex("proc_exit")
